@@ -184,6 +184,10 @@ pub fn specs(tier: &str, _prop: &str) -> Vec<ExpSpec> {
         c3.short = Short::Block(7);
         v.push(ExpSpec::new(c3, alpha::mixed(512), if th { 4 } else { 2 }));
     }
+    // two free clusters: calls that fail for lack of space in the middle of a short history
+    for ft in [FatType::Fat12, FatType::Fat16, FatType::Fat32] {
+        v.push(ExpSpec::new(vol::tiny_low(ft, 2, 16), alpha::mixed(512), if th { 5 } else { 4 }));
+    }
     // single FAT copy
     for ft in [FatType::Fat12, FatType::Fat32] {
         if let Some(c) = geometry_cfg(ft, 512, 1, 1, 16, 8) {
